@@ -49,6 +49,8 @@ CONSTANTS
   KeyByAsked,            \* F10: trans keyed by the reference asked for only
   RecordAfter,           \* mutation: trans recorded after recursing
   DropParms,             \* mutation: the copied stream loses /DecodeParms
+  InlinedAsIs,           \* mutation: an indirect or array /Filter, /DecodeParms is stored as inlineFilterRefs
+                         \* returns it, references nested in parameter dictionaries are not translated
   VerbatimAlways,        \* mutation: stream bytes reused whatever the encryption
   Twin,                  \* function 1..N -> 1..N: Twin[n] # n says that n is a reference with the object
                          \* NUMBER of Twin[n] but another generation (a stale reference to a freed and
@@ -115,16 +117,16 @@ SetKey(v, key, x) ==     \* CopyDict keeps the key set, so the key is always the
 ResolveVal(G, x) == IF x.t = "r" THEN (LET c == Canon(G, x.n) IN IF c = 0 THEN Nul ELSE G[c].v) ELSE x
 Inline(G, x) == LET r == ResolveVal(G, x) IN
                 IF r.t = "a" THEN Ar([i \in 1..Len(r.e) |-> ResolveVal(G, r.e[i])]) ELSE r
-RECURSIVE Deep(_, _, _)
-Deep(G, x, fuel) ==
-  IF fuel = 0 THEN Nul
-  ELSE CASE x.t = "r" -> (LET c == Canon(G, x.n) IN IF c = 0 THEN Nul ELSE Deep(G, G[c].v, fuel - 1))
-         [] x.t = "a" -> Ar([i \in 1..Len(x.e) |-> Deep(G, x.e[i], fuel - 1)])
-         [] x.t = "d" -> Di(x.k, [i \in 1..Len(x.e) |-> Deep(G, x.e[i], fuel - 1)])
-         [] OTHER -> x
-(* the filter chain a reader sees: /Filter and /DecodeParms fully resolved  *)
-DeepSpec(G, v) == <<IF HasKey(v, "Filter") THEN Deep(G, Entry(v, "Filter"), 5) ELSE Nul,
-                    IF HasKey(v, "DecodeParms") THEN Deep(G, Entry(v, "DecodeParms"), 5) ELSE Nul>>
+(* the filter chain a reader sees: /Filter and /DecodeParms with the top     *)
+(* level and the array elements resolved (GetFilters); references nested    *)
+(* deeper (e.g. /JBIG2Globals) are compared as references (ParmRefs below)  *)
+RECURSIVE NoRefs(_)
+NoRefs(x) == CASE x.t = "r" -> [t |-> "reference"]
+               [] x.t = "a" -> Ar([i \in 1..Len(x.e) |-> NoRefs(x.e[i])])
+               [] x.t = "d" -> Di(x.k, [i \in 1..Len(x.e) |-> NoRefs(x.e[i])])
+               [] OTHER -> x
+DeepSpec(G, v) == <<IF HasKey(v, "Filter") THEN NoRefs(Inline(G, Entry(v, "Filter"))) ELSE Nul,
+                    IF HasKey(v, "DecodeParms") THEN NoRefs(Inline(G, Entry(v, "DecodeParms"))) ELSE Nul>>
 AsGraph(D) == [n \in DOMAIN D |-> [k |-> "val", v |-> D[n]]]
 
 (* container.go:streamCryptRecipe                                           *)
@@ -138,10 +140,21 @@ Recipe(v) == IF SrcEnc = "none" THEN "verbatim"          \* cryptNone
 (* bytes are the source's iff the writer was handed plaintext and the       *)
 (* target spells the same filter chain                                      *)
 SpecKeys == {"Filter", "DecodeParms"}
-ObsSrcStream(v) == LET w == WithoutKeys(v, SpecKeys) IN [t |-> "st", k |-> w.k, e |-> w.e, body |-> v.body]
+(* the references reachable through /DecodeParms: everything else is null  *)
+RECURSIVE RefSkeleton(_)
+RefSkeleton(x) ==
+  CASE x.t = "r" -> x
+    [] x.t = "a" -> LET es == [i \in 1..Len(x.e) |-> RefSkeleton(x.e[i])] IN
+                    IF \A i \in 1..Len(es) : es[i].t = "z" THEN Nul ELSE Ar(es)
+    [] x.t = "d" -> LET es == [i \in 1..Len(x.e) |-> RefSkeleton(x.e[i])] IN
+                    IF \A i \in 1..Len(es) : es[i].t = "z" THEN Nul ELSE Di(x.k, es)
+    [] OTHER -> Nul
+ParmRefs(G, v) == IF HasKey(v, "DecodeParms") THEN RefSkeleton(Inline(G, Entry(v, "DecodeParms"))) ELSE Nul
+ObsSrcStream(v) == LET w == WithoutKeys(v, SpecKeys) IN
+                   [t |-> "st", k |-> w.k, e |-> w.e, body |-> v.body, p |-> ParmRefs(g, v)]
 ObsDstStream(D, v) ==
   LET w == WithoutKeys(v, SpecKeys) IN
-  [t |-> "st", k |-> w.k, e |-> w.e,
+  [t |-> "st", k |-> w.k, e |-> w.e, p |-> ParmRefs(AsGraph(D), v),
    body |-> IF v.raw.plain /\ DeepSpec(AsGraph(D), v) = v.raw.spec THEN v.raw.body ELSE "garbage"]
 ObsG == [n \in DOMAIN g |-> IF g[n].k = "val" THEN
                                (IF g[n].v.t = "st" THEN [k |-> "val", v |-> ObsSrcStream(g[n].v)] ELSE g[n])
@@ -361,6 +374,10 @@ StreamInline ==   \* copyStreamDict: res[key] = Copy(inlineFilterRefs(src[key]))
         stack' = Below \o <<[Top EXCEPT !.ph = NextPh(key)]>>
      ELSE IF key = "DecodeParms" /\ DropParms THEN
         stack' = Below \o <<[Top EXCEPT !.ph = NextPh(key), !.res = Di(WithoutKeys(@, {key}).k, WithoutKeys(@, {key}).e)]>>
+     ELSE IF InlinedAsIs THEN
+        LET src == Entry(Top.v, key) IN
+        stack' = Below \o <<[Top EXCEPT !.ph = NextPh(key),
+                              !.res = IF src.t \in {"r", "a"} THEN SetKey(@, key, Inline(g, src)) ELSE @]>>
      ELSE LET x == Inline(g, Entry(Top.v, key)) IN
           IF IsLeaf(x) THEN stack' = Below \o <<[Top EXCEPT !.ph = NextPh(key), !.res = SetKey(@, key, x)]>>
           ELSE stack' = Below \o <<[Top EXCEPT !.ph = key \o "-ret"]>> \o FramesFor(x)
